@@ -398,6 +398,9 @@ func normSam(b []byte) []byte {
 						fs[i] = []byte(string(p[0]) + ":f:" + canon)
 						changed = true
 					}
+				} else if ne, ok := err.(*strconv.NumError); ok && ne.Err == strconv.ErrRange {
+					fs[i] = []byte(string(p[0]) + ":f:RANGE")
+					changed = true
 				}
 			}
 		}
@@ -746,8 +749,14 @@ func normNewick(b []byte) []byte {
 
 // normDistTok maps a token that ParseFloat accepts to Go's canonical %v text.
 func normDistTok(t string) string {
-	if v, err := strconv.ParseFloat(t, 64); err == nil {
+	v, err := strconv.ParseFloat(t, 64)
+	if err == nil {
 		return fmt.Sprint(v)
+	}
+	if ne, ok := err.(*strconv.NumError); ok && ne.Err == strconv.ErrRange {
+		// well-formed but out of range: Go rejects it, the token grammar of the model
+		// cannot know that; replace by a token both sides reject
+		return "RANGE"
 	}
 	return t
 }
